@@ -235,6 +235,21 @@ func countFloatSignificantDigits(str string) (count uint) {
 	return count
 }
 
+// 10^19 - 1 < 2^64, so 19 digits can never overflow a 64-bit coefficient.
+const maxDFloatCoefficientDigits = 19
+
+func countDecimalCoefficientDigits(str string) (count int) {
+	for _, ch := range str {
+		if ch == 'e' || ch == 'E' {
+			break
+		}
+		if ch >= '0' && ch <= '9' {
+			count++
+		}
+	}
+	return count
+}
+
 func (_this *cteListener) ExitValueFloat(ctx *parser.ValueFloatContext) {
 	defer func() {
 		_this.wrapPanic(recover(), ctx.BaseParserRuleContext)
@@ -268,9 +283,13 @@ func (_this *cteListener) ExitValueFloat(ctx *parser.ValueFloatContext) {
 		}
 	}
 
-	if value, err := compact_float.DFloatFromString(str); err == nil {
-		_this.eventReceiver.OnDecimalFloat(value)
-		return
+	// compact_float silently wraps coefficients that need more than 64 bits, so
+	// only let it parse literals whose coefficient is guaranteed to fit.
+	if countDecimalCoefficientDigits(strNoSign) <= maxDFloatCoefficientDigits {
+		if value, err := compact_float.DFloatFromString(str); err == nil {
+			_this.eventReceiver.OnDecimalFloat(value)
+			return
+		}
 	}
 
 	decimal, cond, err := apd.NewFromString(strNoSign)
